@@ -322,6 +322,11 @@ var zzTryTimeout time.Duration
 var zzMaxRetries uint32
 
 func zzMachine(numRetries uint32, retryOn bool) (*downStream, *zzMSender, *zzMPool, *proxy, context.Context) {
+	return zzMachine2(numRetries, retryOn, false)
+}
+
+// zzMachine2: oneway = the downstream request has no response sender (a one-way request).
+func zzMachine2(numRetries uint32, retryOn bool, oneway bool) (*downStream, *zzMSender, *zzMPool, *proxy, context.Context) {
 	zzRegisterProtocol()
 	ctx := variable.NewVariableContext(context.Background())
 	ctx = buffer.NewBufferPoolContext(ctx)
@@ -360,6 +365,9 @@ func zzMachine(numRetries uint32, retryOn bool) (*downStream, *zzMSender, *zzMPo
 		}),
 	}
 	sender := &zzMSender{st: &zzMStream{}}
+	if oneway {
+		return newActiveStream(ctx, p, nil, nil), sender, pool, p, ctx
+	}
 	ds := newActiveStream(ctx, p, sender, nil)
 	return ds, sender, pool, p, ctx
 }
@@ -1055,6 +1063,89 @@ func VerifC10_UpstreamStreamReleased() {
 	}
 	if len(pool.senders) > 0 {
 		verif.Cover("upstream stream created")
+	}
+	verif.Cover("end")
+}
+
+
+// zzOWFilter answers a request through one of the three reply calls of the
+// receive filter handler, then returns its verdict.
+type zzOWFilter struct {
+	api     int // 0 none, 1 SendHijackReply, 2 SendHijackReplyWithBody, 3 SendDirectResponse
+	verdict api.StreamFilterStatus
+	handler api.StreamReceiverFilterHandler
+	calls   int
+}
+
+func (f *zzOWFilter) OnDestroy() {}
+func (f *zzOWFilter) OnReceive(ctx context.Context, h api.HeaderMap, b api.IoBuffer, t api.HeaderMap) api.StreamFilterStatus {
+	f.calls++
+	switch f.api {
+	case 1:
+		f.handler.SendHijackReply(403, h)
+	case 2:
+		f.handler.SendHijackReplyWithBody(403, h, "denied")
+	case 3:
+		f.handler.SendDirectResponse(h, buffer.NewIoBufferString("denied"), nil)
+	}
+	return f.verdict
+}
+func (f *zzOWFilter) SetReceiveFilterHandler(h api.StreamReceiverFilterHandler) { f.handler = h }
+
+// VerifC14_OnewayDeny: a one-way request (no response sender) or an ordinary
+// one, one receive filter in any phase which lets it pass, terminates it, or
+// denies it through any of the three reply calls of the filter handler (stop
+// verdict). A denied or terminated request is never sent upstream - also when
+// there is nobody to send the reply to; an allowed one is sent exactly once;
+// a later filter does not run after a deny; the request is cleaned up.
+func VerifC14_OnewayDeny() {
+	verif.Switches(0)
+	oneway := verif.Choose("oneway", 2) == 1
+	kind := verif.Choose("kind", 5) // 0 allow, 1..3 deny through the three reply calls, 4 termination
+	ph := api.ReceiverFilterPhase(verif.Choose("phase", 3))
+	ds, sender, pool, _, ctx := zzMachine2(0, false, oneway)
+	pool.scripted = true
+	f := &zzOWFilter{verdict: api.StreamFilterContinue}
+	switch kind {
+	case 1, 2, 3:
+		f.api, f.verdict = kind, api.StreamFilterStop
+	case 4:
+		f.verdict = api.StreamFiltertermination
+	}
+	ds.streamFilterChain.AddStreamReceiverFilter(f, ph)
+	later := &zzOWFilter{verdict: api.StreamFilterContinue}
+	ds.streamFilterChain.AddStreamReceiverFilter(later, api.AfterChooseHost)
+	done := false
+	go func() {
+		ds.OnReceive(ctx, protocol.CommonHeader{}, nil, nil)
+		done = true
+	}()
+	verif.Settle()
+	if !done {
+		if ur := ds.upstreamRequest; ur != nil && ur.requestSender != nil {
+			ur.OnReceive(ctx, protocol.CommonHeader{"status": "200"}, nil, nil)
+		}
+		verif.Settle()
+	}
+	verif.Assume(done)
+	if kind == 0 {
+		// (a pool failure may be retried: more than one call of the pool, at most one accepted)
+		verif.Assert(pool.calls >= 1 && len(pool.senders) <= 1, "an allowed request must be offered to the upstream pool, and be sent at most once")
+		verif.Assert(later.calls == 1, "a filter of a later phase must run once for an allowed request")
+		verif.Cover("allowed")
+	} else {
+		verif.Assert(pool.calls == 0, "a request denied (or terminated) by a receive filter was still sent upstream")
+		if ph < api.AfterChooseHost {
+			verif.Assert(later.calls == 0, "a filter of a later phase ran after the request was denied")
+		}
+		if oneway {
+			verif.Cover("oneway-denied")
+		}
+	}
+	if oneway {
+		verif.Assert(sender.headers == 0, "a one-way request has nobody to reply to")
+	} else if kind >= 1 && kind <= 3 {
+		verif.Assert(sender.headers == 1, "the filter's local reply must reach the client exactly once")
 	}
 	verif.Cover("end")
 }
